@@ -329,7 +329,7 @@ impl<'a> Interp<'a> {
     /// fresh bytes, unique within the case (4-byte serial prefix, length >= 4)
     fn fresh(&mut self, len: usize) -> (u64, Vec<u8>) {
         self.serial += 1;
-        let len = len.clamp(4, 1 << 20);
+        let len = len.clamp(4, 64 << 20);
         let mut v = Rng::new(self.case.content_seed ^ self.serial.wrapping_mul(0x9E37_79B9_7F4A_7C15)).bytes(len);
         v[..4].copy_from_slice(&(self.serial as u32).to_le_bytes());
         (self.serial, v)
